@@ -42,6 +42,8 @@ def stages(tier, seed, bins):
             # exact-rank input: rank <= td
             c["data"] = "flat"
             c["q"] = max(1, min(td, c["D"], rnd.choice([td, td, max(1, td - 1)])))
+            if rnd.random() < 0.4:
+                c["aniso"] = rnd.choice([30, 300, 1000, 3000])  # retained eigenvalues spread over up to seven decades
         c["em"] = em
         if m == "mds":
             c["dist"] = rnd.choice(["l2", "l2", "l2", "l1", "linf", "discrete"])
@@ -60,7 +62,7 @@ def stages(tier, seed, bins):
         # (not with the polynomial kernel (x.y + 1)^2: in a tiny unit all its values are 1 + O(1e-12) and centring them cancels
         # twelve digits whatever the implementation does - an ill-conditioned input, not a scale-free one)
         if rnd.random() < 0.15 and c.get("kernel") != "poly":
-            xs = rnd.choice([1e-6, 1e-3, 1e3, 1e6])
+            xs = rnd.choice([1e-12, 1e-9, 1e-6, 1e-3, 1e3, 1e6, 1e9])
             c["xscale"] = xs
             if "gamma" in c:
                 c["gamma"] = repr(c["gamma"] / (xs * xs))
